@@ -47,6 +47,13 @@ class Ctx:
         self.distinct = set()
         self.findings = load_findings(prop)
         self.level = "proof"
+        # replay files of earlier runs of this property are stale
+        import glob
+        for f in glob.glob(os.path.join(REPLAY, "%s-*.json" % prop)):
+            try:
+                os.unlink(f)
+            except OSError:
+                pass
 
     # ---- counting -------------------------------------------------------------------
     def count(self, key, n=1):
